@@ -120,6 +120,9 @@ type world struct {
 	dialFail map[peer.ID]bool
 	// groupSize > 0: peer addresses are spread over /16 blocks, `groupSize` consecutive ranks per block
 	groupSize int
+	// qf != "": a query filter on addresses is configured; class of rank r = qf[r]:
+	// 'p' responses carry a public address, 'x' only a private one, 'k' none (the peerstore already holds a public one)
+	qf string
 }
 
 // addrBytes is the single address a response carries for the peer of the given rank.
@@ -256,7 +259,16 @@ func (w *world) findParked(rank int) *parked {
 func (w *world) closerPeersMsg(req *pb.Message, ranks []int) *pb.Message {
 	m := &pb.Message{Type: req.GetType(), Key: req.GetKey()}
 	for _, r := range ranks {
-		m.CloserPeers = append(m.CloserPeers, &pb.Message_Peer{Id: []byte(w.peerOf(r)), Addrs: [][]byte{w.addrBytes(r)}})
+		pm := &pb.Message_Peer{Id: []byte(w.peerOf(r)), Addrs: [][]byte{w.addrBytes(r)}}
+		if r < len(w.qf) {
+			switch w.qf[r] {
+			case 'x':
+				pm.Addrs = [][]byte{vAddr(r+1, 8, true).Bytes()}
+			case 'k':
+				pm.Addrs = nil
+			}
+		}
+		m.CloserPeers = append(m.CloserPeers, pm)
 	}
 	return m
 }
